@@ -94,7 +94,7 @@ def oracle_job(job):
         for mode in [("none",)] + LR_MODES:
             corr_parse.set_mode(pp, mode)
             try:
-                o = common.with_alarm(corr_parse.CASE_TIMEOUT, full_outcome, pp, root, s)
+                o = common.with_alarm_retry(corr_parse.CASE_TIMEOUT, full_outcome, pp, root, s)
             except common.CaseTimeout:
                 o = ["hang"]
             finally:
